@@ -822,3 +822,164 @@ func verifC05() {
 }
 
 func VerifC05Quick() { verifC05() }
+
+// ---------------------------------------------------------------- C06
+
+// c06scenario runs scenario k on the scene; returns the blocks it stored in the ledger (in order).
+func c06scenario(sc *scene, k int) {
+	b2 := vkit.Block(sc.b1.Blockid, 2, []*pb.Transaction{vkit.Coinbase("cb2", "M", []byte{7}), sc.goodTx2()})
+	switch k {
+	case 0: // a peer's block: confirm, then play
+		sc.blockIDs = append(sc.blockIDs, b2.Blockid)
+		if sc.e.L.ConfirmBlock(b2, false).Succ {
+			sc.s.Play(b2.Blockid)
+		}
+	case 1: // pool admission
+		sc.s.DoTx(sc.goodTx2())
+	case 2: // miner path: pool admission, own block confirmed and applied with PlayForMiner
+		sc.blockIDs = append(sc.blockIDs, b2.Blockid)
+		if sc.s.DoTx(sc.goodTx2()) == nil {
+			if sc.e.L.ConfirmBlock(b2, false).Succ {
+				sc.s.PlayForMiner(b2.Blockid)
+			}
+		}
+	case 3: // a longer fork arrives (two blocks of Autogen transfers), the state walks across
+		t3 := vkit.Tx("t3", []*protos.TxInput{vkit.In(sc.e.RootTx.Txid, 0, "A", big.NewInt(9))}, []*protos.TxOutput{vkit.Out("C", big.NewInt(9), 0)})
+		t3.Autogen = true
+		c1 := vkit.Block(sc.e.Root.Blockid, 3, []*pb.Transaction{vkit.Coinbase("cb3", "M", []byte{7}), t3})
+		c2 := vkit.Block(c1.Blockid, 4, []*pb.Transaction{vkit.Coinbase("cb4", "M", []byte{7})})
+		sc.blockIDs = append(sc.blockIDs, c1.Blockid, c2.Blockid)
+		if sc.e.L.ConfirmBlock(c1, false).Succ && sc.e.L.ConfirmBlock(c2, false).Succ {
+			sc.s.Walk(c2.Blockid, false)
+			vrt.Quiesce()
+		}
+	}
+}
+
+// verifC06: crash (panic before the c-th storage write, c over every write the
+// scenario issues, across both databases) and restart.
+func verifC06() {
+	k := vrt.Choice("scenario", 4)
+	// reference run: counts the writes of the scenario
+	fr := newFaults()
+	ref := newScene("c06ref", fr)
+	w0 := fr.Writes
+	c06scenario(ref, k)
+	total := fr.Writes - w0
+
+	f := newFaults()
+	sc := newScene("c06", f)
+	vrt.Assume(sc.x.Cmp(ref.x) == 0)
+	base := f.Writes
+	c := vrt.Choice("crash-before-write", total+1) // == total: no crash
+	f.CrashAt = base + c
+	crashed := false
+	func() {
+		defer func() {
+			if r := recover(); r != nil {
+				if _, ok := r.(memdb.Crash); ok {
+					crashed = true
+					return
+				}
+				panic(r)
+			}
+		}()
+		c06scenario(sc, k)
+	}()
+	f.CrashAt = -1
+	vrt.Cover("crashed", crashed)
+	vrt.Cover("completed", !crashed)
+	vrt.Assert(crashed == (c < total), "crash-injected-where-planned")
+
+	// restart: everything in memory is gone; both stores are reopened by the real constructors
+	l := sc.e.Reopen()
+	sc.e.L = l
+	s := sc.e.NewState("live")
+	// ledger invariants at the recovered tip
+	meta := l.GetMeta()
+	tipb, err := l.QueryBlockHeader(meta.TipBlockid)
+	vrt.Assert(err == nil && tipb.InTrunk && tipb.Height == meta.TrunkHeight, "recovered-tip-is-a-stored-trunk-block-at-the-recorded-height")
+	var chain []*pb.InternalBlock
+	cur := tipb
+	for depth := 0; cur != nil && depth < 8; depth++ {
+		chain = append([]*pb.InternalBlock{cur}, chain...)
+		bh, err := l.QueryBlockByHeight(cur.Height)
+		vrt.Assert(err == nil && string(bh.Blockid) == string(cur.Blockid), "recovered-height-index-follows-main-chain")
+		vrt.Assert(cur.InTrunk, "recovered-main-chain-blocks-are-in-trunk")
+		if len(cur.PreHash) == 0 {
+			break
+		}
+		p, err := l.QueryBlockHeader(cur.PreHash)
+		vrt.Assert(err == nil && p.Height+1 == cur.Height && string(p.NextHash) == string(cur.Blockid), "recovered-links-are-consistent")
+		if err != nil {
+			break
+		}
+		cur = p
+	}
+	vrt.Assert(len(chain) > 0 && string(chain[0].Blockid) == string(sc.e.Root.Blockid), "recovered-main-chain-reaches-genesis")
+	// the state's pointer names a stored block and the state equals a replica played to it (plus its pool)
+	ptr := s.GetLatestBlockid()
+	pb0, err := l.QueryBlockHeader(ptr)
+	vrt.Assert(err == nil, "recovered-state-pointer-names-a-stored-block")
+	if err != nil {
+		return
+	}
+	var path []*pb.InternalBlock
+	for b := pb0; ; {
+		path = append([]*pb.InternalBlock{b}, path...)
+		if len(b.PreHash) == 0 {
+			break
+		}
+		p, err := l.QueryBlockHeader(b.PreHash)
+		if err != nil {
+			vrt.Assert(false, "recovered-state-pointer-chain-is-stored")
+			return
+		}
+		b = p
+	}
+	rep := sc.e.NewState("replica-at-pointer")
+	for _, b := range path {
+		vrt.Assert(rep.Play(b.Blockid) == nil, "replica-plays-chain-in-order")
+	}
+	pool, perr := s.GetUnconfirmedTx(false)
+	vrt.Assert(perr == nil, "recovered-pool-readable")
+	for _, t := range pool {
+		vrt.Assert(rep.DoTx(t) == nil, "recovered-pool-transaction-is-valid-on-the-recovered-state")
+	}
+	vkit.Same(vkit.Observe(s), vkit.Observe(rep), func(c bool, label string) { vrt.Assert(c, "recovered-state-equals-replica-at-its-pointer-"+label) })
+	// synchronising to the ledger tip succeeds and gives the state of a node that played the main chain
+	onChain := false
+	for _, b := range chain {
+		if string(b.Blockid) == string(ptr) {
+			onChain = true
+		}
+	}
+	if onChain {
+		started := false
+		for _, b := range chain {
+			if started {
+				vrt.Assert(s.Play(b.Blockid) == nil, "sync-to-ledger-tip-succeeds")
+			}
+			if string(b.Blockid) == string(ptr) {
+				started = true
+			}
+		}
+	} else {
+		// the state sits on the abandoned branch: walk across (redo leg = Autogen blocks in scenario 3)
+		err := s.Walk(meta.TipBlockid, false)
+		vrt.Quiesce()
+		vrt.Assert(err == nil, "sync-to-ledger-tip-succeeds")
+	}
+	rep2 := sc.e.NewState("replica-at-tip")
+	for _, b := range chain {
+		vrt.Assert(rep2.Play(b.Blockid) == nil, "replica-plays-chain-in-order")
+	}
+	so := vkit.Observe(s)
+	ro := vkit.Observe(rep2)
+	// pending transactions the tip did not confirm stay pending on the synchronised node only
+	if pl, _ := s.GetUnconfirmedTx(false); len(pl) == 0 {
+		vkit.Same(so, ro, func(c bool, label string) { vrt.Assert(c, "synchronised-state-equals-node-that-played-the-main-chain-"+label) })
+	}
+}
+
+func VerifC06Quick() { verifC06() }
